@@ -119,6 +119,14 @@ fn fn_case_in(tt: TT, n: usize, w: usize, store: usize) -> Vec<(String, String)>
         };
         let h = build_fm(&mut b, &write_fm(tt, n, w));
         drop(keep);
+        // 3 = the store is exported, imported and repaired before it is queried; 4 = the repair step on the live store
+        if store == 3 {
+            let text = serde_json::to_string(&b).expect("a store must be serialisable");
+            b = serde_json::from_str(&text).expect("an exported store must be importable");
+            b.fix_import();
+        } else if store == 4 {
+            b.fix_import();
+        }
         (b, h)
     });
     let (b, h) = match built {
@@ -462,7 +470,7 @@ fn structural_cube_checks(b: &Bdd, h: usize, nvars: usize, rc: &[(u128, u128, us
     }
 }
 
-pub const STORE_KINDS: [&str; 3] = ["plain store", "store with a sender whose receiver lives", "store with a sender whose receiver went away after the variables were made"];
+pub const STORE_KINDS: [&str; 5] = ["plain store", "store with a sender whose receiver lives", "store with a sender whose receiver went away after the variables were made", "store exported, imported and repaired before the queries", "store repaired (fix_import) before the queries"];
 
 /// one deep formula, built in one of three kinds of store, every node queried
 pub fn deep_fn_case(kind: usize, n: usize, store: usize) -> Vec<(String, String)> {
@@ -742,6 +750,31 @@ pub fn run_c13(run: &Run) {
         );
         for st in res {
             run.add_counts(st.0, st.0 * 30, st.0, st.1);
+        }
+    }
+    // the same functions in stores whose bookkeeping was REBUILT by the repair step (after a serde round trip / on the
+    // live store): all functions of <= 4 variables (the variable lists of nodes whose successors test the same variable
+    // but depend on different variables need four)
+    {
+        for n in [3usize, 4] {
+            let total = (full(n) as u64 + 1) * 2;
+            let res = run.par_family(
+                &format!("all functions of {} variables in stores whose bookkeeping was rebuilt by the repair step (re-imported / live), every node queried", n),
+                total,
+                || 0u64,
+                |st, k| {
+                    let tt = (k / 2) as TT;
+                    let store = 3 + (k % 2) as usize;
+                    *st += 1;
+                    for (kind, msg) in fn_case_in(tt, n, if tt % 3 == 0 { 0 } else { 5 }, store) {
+                        run.violation(&kind, format!("{} (function {:#x} over {} variables, {})", msg, tt, n, STORE_KINDS[store]), json!({"type": "function", "tt": tt, "vars": n, "writer": if tt % 3 == 0 { 0 } else { 5 }, "store": store}));
+                    }
+                },
+                &|k| json!({"type": "function", "tt": k / 2, "vars": n, "writer": 5, "store": 3 + k % 2}),
+            );
+            for st in res {
+                run.add_counts(st, st * 20, st, 0);
+            }
         }
     }
     if cfg!(feature = "frontend") {
